@@ -322,6 +322,8 @@ class EqMethod(MethodDescriptor):
                 continue
             value_self = getattr(self, attr, MISSING)
             value_other = getattr(other, attr, MISSING)
+            if value_self is value_other:
+                continue  # (as for the elements of builtin containers)
             if inspect.ismethod(value_self) and inspect.ismethod(value_other):
                 if value_self.__func__ is not value_other.__func__:
                     return False
